@@ -26,20 +26,42 @@ meta['ran'].append({'cmd': 'demo.py without the change', 'exit': rc0, 'tail': ou
 meta['confirmed'] = bool(tests_ok and rc1 != 0 and rc0 == 0)
 readme = open(os.path.join(src, 'README.md')).read() if os.path.exists(os.path.join(src, 'README.md')) else ''
 meta['needs_to_manifest'] = readme[:1500]
-# run checks against /repo with the patch
-rc, out = sh('git -C /repo status --porcelain'); assert out.strip() == '', 'repo dirty: ' + out
-rc, out = sh('git -C /repo apply %s/patch.diff' % src)
-meta['applies_to_repo_head'] = (rc == 0)
+# run checks with the patch: by default against a scratch worktree of /repo's HEAD (CHI_REPO=<copy>; /repo itself stays
+# untouched, so background runs that read /repo are not disturbed); SEED_IN_REPO=1 applies it to /repo and undoes it afterwards
 det = {}
-if rc == 0:
+def run_checks(env_prefix):
+    from concurrent.futures import ThreadPoolExecutor
+    def one(c):
+        t = time.time()
+        rcc, outc = sh('%s PVC_EVIDENCE_DIR=/tmp/pvc_seed_out/%s-%s-%s %s/bin/check %s --tier quick --jobs 6' % (env_prefix, pid, mk, c, ROOT, c))
+        viol = [l for l in outc.splitlines() if l.startswith('VIOLATION')]
+        fault = [l for l in outc.splitlines() if l.startswith('CHECKER-FAULT')]
+        return c, {'exit': rcc, 'violations': viol[:6], 'n_violation_lines': len(viol), 'checker_faults': fault[:3], 'wall_s': round(time.time() - t, 1)}
+    with ThreadPoolExecutor(3) as ex:
+        for c, r in ex.map(one, checks):
+            det[c] = r
+if os.environ.get('SEED_IN_REPO'):
+    rc, out = sh('git -C /repo status --porcelain'); assert out.strip() == '', 'repo dirty: ' + out
+    rc, out = sh('git -C /repo apply %s/patch.diff' % src)
+    meta['applies_to_repo_head'] = (rc == 0)
+    if rc == 0:
+        try:
+            run_checks('')
+        finally:
+            sh('git -C /repo checkout -- .')
+else:
+    import tempfile
+    os.makedirs('/tmp/scratch', exist_ok=True)
+    tree = tempfile.mkdtemp(prefix='seed_', dir='/tmp/scratch'); os.rmdir(tree)
+    rc, out = sh('git -C /repo worktree add --detach %s HEAD' % tree); assert rc == 0, out
     try:
-        for c in checks:
-            t = time.time()
-            rcc, outc = sh('PVC_EVIDENCE_DIR=/tmp/pvc_seed_out %s/bin/check %s --tier quick' % (ROOT, c))
-            viol = [l for l in outc.splitlines() if l.startswith('VIOLATION')]
-            det[c] = {'exit': rcc, 'violations': viol[:6], 'n_violation_lines': len(viol), 'wall_s': round(time.time() - t, 1)}
+        rc, out = sh('git -C %s apply %s/patch.diff' % (tree, src))
+        meta['applies_to_repo_head'] = (rc == 0)
+        meta['evaluated_on'] = 'scratch worktree of /repo HEAD with the patch applied (CHI_REPO)'
+        if rc == 0:
+            run_checks('CHI_REPO=%s' % tree)
     finally:
-        sh('git -C /repo checkout -- .')
+        sh('git -C /repo worktree remove --force %s' % tree); shutil.rmtree(tree, ignore_errors=True)
 if rc != 0:
     # the patch no longer applies to /repo's HEAD (a later fix: commit rewrote the lines): evaluate on the agent's own scratch
     # worktree (the older tree), comparing the violation lines with and without the patch
